@@ -429,6 +429,17 @@ def r02_13(ctx: Ctx, rule: str = "R02.13") -> None:
                   "archived as the member's content instead of the file it points to", construct="assym ignores deref")
 
 
+def r02_14(ctx: Ctx, rule: str = "R02.14") -> None:
+    """a symbolic link is archived by its TEXT: helpers.readlink must not require that the text leads anywhere - an existence test that
+    follows the link (`os.path.exists`, `Path.exists`) refuses a dangling link with OSError and `c`/`a`/writeall die on a tree that holds one."""
+    f = ctx.prog.func("helpers", "readlink")
+    bad = [c for c in q.calls(f) if (dotted(c.func) or "") in ("os.path.exists",) or (attr_tail(c) in ("exists", "is_file", "is_dir") and not (dotted(c.func) or "").startswith("os.path.l"))]
+    bad = [c for c in bad if any(q.branch_always_raises(cfg_of(f.node), e) for t in cfg_of(f.node).nodes if t.kind == "test" and any(c is x for x in ast.walk(t.ast)) for e in t.succ if e.kind in ("true", "false"))]
+    ctx.check(not bad, rule, f, bad[0] if bad else f.node, "readlink does not ask whether the link's target exists",
+              (f"`{norm(bad[0])}` " if bad else "") + "follows the link: helpers.readlink raises OSError(22) for a dangling symbolic link, and archiving a tree that holds one fails half-way "
+              "(`c`, `a`, writeall) although the link's text is all that is stored", construct="readlink follows the link")
+
+
 def r02_12(ctx: Ctx, rule: str = "R02.12") -> None:
     """a link of the tree is re-created whenever it leads to a place inside the destination AS THE SYSTEM FOLLOWS IT.  The textual check
     (is_path_valid -> canonical_path) collapses 'name/..' without asking whether `name` is a link: with s -> a/b/c/d the valid link
@@ -476,6 +487,7 @@ def run(ctx: Ctx) -> None:
     r02_9(ctx)
     r02_11(ctx)
     r02_12(ctx)
+    r02_14(ctx)
     r02_13(ctx)
     r02_10(ctx)
     r02_6(ctx)
